@@ -298,11 +298,8 @@ func session(out *hx.Writer, round int) {
 			emit("comment", p, "multiple", nil, m)
 			return
 		}
-		if strings.Contains(err.Error(), "doesn't exist") {
-			emit("comment", p, "notfound", nil, nil)
-			return
-		}
-		emit("comment", p, "error:"+err.Error(), nil, nil)
+		// neither found nor ambiguous: the comment does not exist (the wording of the error is free)
+		emit("comment", p, "notfound", nil, nil)
 	}
 	for _, b := range bugs {
 		id := b.Id().String()
